@@ -582,6 +582,34 @@ fn check_impl(src: &str, used: u8, which: usize, t: &mut Tally) {
     }
 }
 
+/// The emitted impl bounds exactly the raw-identifier parameter a parsed member uses.
+fn raw_param_check(src: &str, t: &mut Tally) {
+    let di: syn::DeriveInput = syn::parse_str(src).unwrap();
+    t.evaluations += 1;
+    t.hit("raw_params_checked");
+    let ts = match catch(std::panic::AssertUnwindSafe(|| darling_core::derive::from_meta(&di))) {
+        Ok(ts) => ts,
+        Err(p) => {
+            t.violate(Violation { key: format!("C19 raw-param `{src}` :: panicked"), what: format!("derive(FromMeta) on `{src}` panicked: {p}"), case: json!({}), detail: json!({}) });
+            return;
+        }
+    };
+    let Ok(file) = syn::parse2::<syn::File>(ts) else { return };
+    let Some(syn::Item::Impl(im)) = file.items.first() else { return };
+    let got: Vec<String> = im.generics.type_params().map(|tp| format!("{}:{}", tp.ident, squash(tp.bounds.iter().map(|b| b.to_token_stream().to_string()).collect::<Vec<_>>().join("+")))).collect();
+    let want: Vec<String> = di
+        .generics
+        .type_params()
+        .map(|tp| {
+            let used = tp.ident.to_string().starts_with("r#") || (tp.ident == "T");
+            format!("{}:{}", tp.ident, if used { "::darling::FromMeta" } else { "" })
+        })
+        .collect();
+    if got != want {
+        t.violate(Violation { key: format!("C19 raw-param `{src}` :: {got:?}"), what: format!("derive(FromMeta) on `{src}`: impl generics {got:?}, expected {want:?}"), case: json!({}), detail: json!({}) });
+    }
+}
+
 fn derive_half(tys: &[G], thorough: bool, t: &mut Tally) {
     let idx: Vec<usize> = (0..tys.len()).step_by(if thorough { 1 } else { 5 }).collect();
     let tl = idx
@@ -609,6 +637,16 @@ fn derive_half_one(tys: &[G], i: usize, thorough: bool, t: &mut Tally) {
         "<T: legacy::FromMeta, U: FromMeta + Clone, X: crate::meta::FromMeta>",
         "<T: darling::FromMeta, U: ::darling_core::FromMeta, X: FromMetaLike>",
     ];
+    // raw-identifier parameters are parameters like any other
+    if i % 7 == 0 {
+        for src in [
+            "struct R<T, r#gen> { a: T, b: Vec<r#gen> }",
+            "struct R<r#type, U> { a: Option<r#type>, #[darling(skip)] b: U }",
+            "enum R<r#gen, U> { A(r#gen), #[darling(skip)] B(U) }",
+        ] {
+            raw_param_check(src, t);
+        }
+    }
     let wheres = ["", " where U: Copy, T: Into<U>", " where T: legacy::FromMeta, U: other::FromMeta + Clone, X: FromMeta"];
     {
         let a = &tys[i];
